@@ -1,6 +1,7 @@
 """C11 — Linear-prediction representations convert losslessly into each other."""
 import math
 import numpy as np
+from props._loopir import loopir_tie, TRUSTED_LINE
 import vlib
 from vlib import cz, czl, tolq
 
@@ -12,7 +13,7 @@ LEVEL_TEXT = ("Theorems in Coq over an abstract field with conjugation (every or
               "maps are inverse bijections in Coq's R. The hand-written Gallina model (Model/LinPred.v) is tied to linear_prediction.py / "
               "levinson.py by running both on the same exact dyadic inputs (vm_compute over Gaussian rationals, comparison inside Coq), "
               "including every error branch, and a property-directed search runs every pair of representations on the implementation.")
-TRUSTED = ["Coq 8.16.1 kernel + vm_compute (no native_compute)",
+TRUSTED = [TRUSTED_LINE, "Coq 8.16.1 kernel + vm_compute (no native_compute)",
            "hand-written model coq/Model/LinPred.v (+ Model/Levinson.v), tied to linear_prediction.py/levinson.py by the correspondence run only",
            "numpy.roots / numpy.poly / scipy.signal.deconvolve inside poly2lsf / lsf2poly: the arguments handed to roots and the values "
            "returned by poly are captured on the unmodified snapshot and compared with the model; root finding itself is not verified",
@@ -451,6 +452,7 @@ def run(ctx):
     from spectrum.levinson import rlevinson, levdown
     rng = ctx.rng
     ctx.check_theorems('Properties/C11.v')
+    loopir_tie(ctx, ['LEVINSON', 'levup', 'levdown'])      # IR programs regenerated from the source vs the hand models: exact, zero tolerance
 
     def call(f, *args):
         try:
